@@ -110,7 +110,7 @@ def run(ctx):
                     if s is None:
                         continue
                     kinds = set()
-                    for k, pol, atom in f.edge_facts(bid, i):
+                    for k, pol, atom in f.edge_facts(bid, i, all=True):
                         a = strip(atom)
                         # alive: a single test says "has a producer" / "has consumers" ...
                         dk = dead_test(atom, not pol)
@@ -130,7 +130,7 @@ def run(ctx):
                                 kinds |= pk
                     if kinds:
                         alive_kinds |= kinds
-                        r = f.find_path(None, lambda x: x is e, from_succ=s, init_facts=frozenset((k, p) for k, p, a in f.edge_facts(bid, i)),
+                        r = f.find_path(None, lambda x: x is e, from_succ=s, init_facts=frozenset((k, p) for k, p, a in f.edge_facts(bid, i, all=True)),
                                         is_blocker=lambda x: x['k'] == 'call' and x.get('name') == 'State::LookupNode')
                         if r is not None:
                             bad = (sorted(kinds), r[0])
